@@ -283,9 +283,6 @@ impl Links {
         for lane_id in lane_ids {
             if let Entry::Occupied(mut entry) = forward.entry(lane_id) {
                 entry.get_mut().remove(&id, total_count);
-                if entry.get().is_empty() {
-                    entry.remove();
-                }
             }
         }
         if let Some(reporter) = aggregate_reporter {
